@@ -34,55 +34,309 @@ Record st := mkst { sa : int; sb : int; sc : int; sd : int; se : int; sf : int; 
 Definition H0 : st :=
   mkst 0x6a09e667 0xbb67ae85 0x3c6ef372 0xa54ff53a 0x510e527f 0x9b05688c 0x1f83d9ab 0x5be0cd19.
 
-Definition byte_int (b : byte) : int := Uint63.of_Z (Z.of_N (Byte.to_N b)).
-
-(* 16 big-endian words from 64 bytes *)
-Fixpoint words (k : nat) (l : bytes) : list int :=
-  match k with
-  | O => []
-  | S k' =>
-    match l with
-    | a :: b :: c :: d :: l' =>
-      ((byte_int a << 24) lor (byte_int b << 16) lor (byte_int c << 8) lor byte_int d)
-        :: words k' l'
-    | _ => []
-    end
+Definition byte_int (b : byte) : int :=
+  match b with
+  | x00 => 0
+  | x01 => 1
+  | x02 => 2
+  | x03 => 3
+  | x04 => 4
+  | x05 => 5
+  | x06 => 6
+  | x07 => 7
+  | x08 => 8
+  | x09 => 9
+  | x0a => 10
+  | x0b => 11
+  | x0c => 12
+  | x0d => 13
+  | x0e => 14
+  | x0f => 15
+  | x10 => 16
+  | x11 => 17
+  | x12 => 18
+  | x13 => 19
+  | x14 => 20
+  | x15 => 21
+  | x16 => 22
+  | x17 => 23
+  | x18 => 24
+  | x19 => 25
+  | x1a => 26
+  | x1b => 27
+  | x1c => 28
+  | x1d => 29
+  | x1e => 30
+  | x1f => 31
+  | x20 => 32
+  | x21 => 33
+  | x22 => 34
+  | x23 => 35
+  | x24 => 36
+  | x25 => 37
+  | x26 => 38
+  | x27 => 39
+  | x28 => 40
+  | x29 => 41
+  | x2a => 42
+  | x2b => 43
+  | x2c => 44
+  | x2d => 45
+  | x2e => 46
+  | x2f => 47
+  | x30 => 48
+  | x31 => 49
+  | x32 => 50
+  | x33 => 51
+  | x34 => 52
+  | x35 => 53
+  | x36 => 54
+  | x37 => 55
+  | x38 => 56
+  | x39 => 57
+  | x3a => 58
+  | x3b => 59
+  | x3c => 60
+  | x3d => 61
+  | x3e => 62
+  | x3f => 63
+  | x40 => 64
+  | x41 => 65
+  | x42 => 66
+  | x43 => 67
+  | x44 => 68
+  | x45 => 69
+  | x46 => 70
+  | x47 => 71
+  | x48 => 72
+  | x49 => 73
+  | x4a => 74
+  | x4b => 75
+  | x4c => 76
+  | x4d => 77
+  | x4e => 78
+  | x4f => 79
+  | x50 => 80
+  | x51 => 81
+  | x52 => 82
+  | x53 => 83
+  | x54 => 84
+  | x55 => 85
+  | x56 => 86
+  | x57 => 87
+  | x58 => 88
+  | x59 => 89
+  | x5a => 90
+  | x5b => 91
+  | x5c => 92
+  | x5d => 93
+  | x5e => 94
+  | x5f => 95
+  | x60 => 96
+  | x61 => 97
+  | x62 => 98
+  | x63 => 99
+  | x64 => 100
+  | x65 => 101
+  | x66 => 102
+  | x67 => 103
+  | x68 => 104
+  | x69 => 105
+  | x6a => 106
+  | x6b => 107
+  | x6c => 108
+  | x6d => 109
+  | x6e => 110
+  | x6f => 111
+  | x70 => 112
+  | x71 => 113
+  | x72 => 114
+  | x73 => 115
+  | x74 => 116
+  | x75 => 117
+  | x76 => 118
+  | x77 => 119
+  | x78 => 120
+  | x79 => 121
+  | x7a => 122
+  | x7b => 123
+  | x7c => 124
+  | x7d => 125
+  | x7e => 126
+  | x7f => 127
+  | x80 => 128
+  | x81 => 129
+  | x82 => 130
+  | x83 => 131
+  | x84 => 132
+  | x85 => 133
+  | x86 => 134
+  | x87 => 135
+  | x88 => 136
+  | x89 => 137
+  | x8a => 138
+  | x8b => 139
+  | x8c => 140
+  | x8d => 141
+  | x8e => 142
+  | x8f => 143
+  | x90 => 144
+  | x91 => 145
+  | x92 => 146
+  | x93 => 147
+  | x94 => 148
+  | x95 => 149
+  | x96 => 150
+  | x97 => 151
+  | x98 => 152
+  | x99 => 153
+  | x9a => 154
+  | x9b => 155
+  | x9c => 156
+  | x9d => 157
+  | x9e => 158
+  | x9f => 159
+  | xa0 => 160
+  | xa1 => 161
+  | xa2 => 162
+  | xa3 => 163
+  | xa4 => 164
+  | xa5 => 165
+  | xa6 => 166
+  | xa7 => 167
+  | xa8 => 168
+  | xa9 => 169
+  | xaa => 170
+  | xab => 171
+  | xac => 172
+  | xad => 173
+  | xae => 174
+  | xaf => 175
+  | xb0 => 176
+  | xb1 => 177
+  | xb2 => 178
+  | xb3 => 179
+  | xb4 => 180
+  | xb5 => 181
+  | xb6 => 182
+  | xb7 => 183
+  | xb8 => 184
+  | xb9 => 185
+  | xba => 186
+  | xbb => 187
+  | xbc => 188
+  | xbd => 189
+  | xbe => 190
+  | xbf => 191
+  | xc0 => 192
+  | xc1 => 193
+  | xc2 => 194
+  | xc3 => 195
+  | xc4 => 196
+  | xc5 => 197
+  | xc6 => 198
+  | xc7 => 199
+  | xc8 => 200
+  | xc9 => 201
+  | xca => 202
+  | xcb => 203
+  | xcc => 204
+  | xcd => 205
+  | xce => 206
+  | xcf => 207
+  | xd0 => 208
+  | xd1 => 209
+  | xd2 => 210
+  | xd3 => 211
+  | xd4 => 212
+  | xd5 => 213
+  | xd6 => 214
+  | xd7 => 215
+  | xd8 => 216
+  | xd9 => 217
+  | xda => 218
+  | xdb => 219
+  | xdc => 220
+  | xdd => 221
+  | xde => 222
+  | xdf => 223
+  | xe0 => 224
+  | xe1 => 225
+  | xe2 => 226
+  | xe3 => 227
+  | xe4 => 228
+  | xe5 => 229
+  | xe6 => 230
+  | xe7 => 231
+  | xe8 => 232
+  | xe9 => 233
+  | xea => 234
+  | xeb => 235
+  | xec => 236
+  | xed => 237
+  | xee => 238
+  | xef => 239
+  | xf0 => 240
+  | xf1 => 241
+  | xf2 => 242
+  | xf3 => 243
+  | xf4 => 244
+  | xf5 => 245
+  | xf6 => 246
+  | xf7 => 247
+  | xf8 => 248
+  | xf9 => 249
+  | xfa => 250
+  | xfb => 251
+  | xfc => 252
+  | xfd => 253
+  | xfe => 254
+  | xff => 255
   end.
 
-(* message schedule kept as a sliding window of the last 16 words (oldest first) *)
-Definition next_w (w : list int) : int :=
-  match w with
-  | w0 :: w1 :: _ :: _ :: _ :: _ :: _ :: _ :: _ :: w9 :: _ :: _ :: _ :: _ :: w14 :: _ :: [] =>
-    add32 (add32 (ssig1 w14) w9) (add32 (ssig0 w1) w0)
-  | _ => 0
-  end.
+Definition bit (x : int) (k : int) : bool := negb (((x >> k) land 1) =? 0).
 
-Definition round (s : st) (k w : int) : st :=
-  let t1 := add32 (add32 (add32 (sh s) (bsig1 (se s))) (add32 (Ch (se s) (sf s) (sg s)) k)) w in
-  let t2 := add32 (bsig0 (sa s)) (Maj (sa s) (sb s) (sc s)) in
-  mkst (add32 t1 t2) (sa s) (sb s) (sc s) (add32 (sd s) t1) (se s) (sf s) (sg s).
+Definition int_byte (x : int) : byte :=
+  Byte.of_bits (bit x 0, (bit x 1, (bit x 2, (bit x 3, (bit x 4, (bit x 5, (bit x 6, bit x 7))))))).
 
-(* ks: remaining round constants; win: current 16-word window whose head is W_t *)
-Fixpoint rounds (ks : list int) (win : list int) (s : st) : st :=
+(* 64 rounds; the message schedule is a sliding window of 16 words passed as arguments *)
+Fixpoint rounds (ks : list int) (a b c d e f g h
+                 w0 w1 w2 w3 w4 w5 w6 w7 w8 w9 w10 w11 w12 w13 w14 w15 : int) : st :=
   match ks with
-  | [] => s
+  | [] => mkst a b c d e f g h
   | k :: ks' =>
-    match win with
-    | w :: rest => rounds ks' (rest ++ [next_w win]) (round s k w)
-    | [] => s
-    end
+    let t1 := add32 (add32 (add32 h (bsig1 e)) (add32 (Ch e f g) k)) w0 in
+    let t2 := add32 (bsig0 a) (Maj a b c) in
+    let wn := add32 (add32 (ssig1 w14) w9) (add32 (ssig0 w1) w0) in
+    rounds ks' (add32 t1 t2) a b c (add32 d t1) e f g
+           w1 w2 w3 w4 w5 w6 w7 w8 w9 w10 w11 w12 w13 w14 w15 wn
   end.
 
-Definition compress (h : st) (block : bytes) : st :=
-  let s := rounds Ks (words 16%nat block) h in
-  mkst (add32 (sa h) (sa s)) (add32 (sb h) (sb s)) (add32 (sc h) (sc s)) (add32 (sd h) (sd s))
-       (add32 (se h) (se s)) (add32 (sf h) (sf s)) (add32 (sg h) (sg s)) (add32 (sh h) (sh s)).
+Definition word (a b c d : byte) : int :=
+  (byte_int a << 24) lor (byte_int b << 16) lor (byte_int c << 8) lor byte_int d.
+
+(* one compression; returns the new state and the rest of the input *)
+Definition compress (s : st) (l : bytes) : st * bytes :=
+  match l with
+  | a0 :: a1 :: a2 :: a3 :: b0 :: b1 :: b2 :: b3 :: c0 :: c1 :: c2 :: c3 :: d0 :: d1 :: d2 :: d3 ::
+    e0 :: e1 :: e2 :: e3 :: f0 :: f1 :: f2 :: f3 :: g0 :: g1 :: g2 :: g3 :: h0 :: h1 :: h2 :: h3 ::
+    i0 :: i1 :: i2 :: i3 :: j0 :: j1 :: j2 :: j3 :: k0 :: k1 :: k2 :: k3 :: l0 :: l1 :: l2 :: l3 ::
+    m0 :: m1 :: m2 :: m3 :: n0 :: n1 :: n2 :: n3 :: o0 :: o1 :: o2 :: o3 :: p0 :: p1 :: p2 :: p3 :: rest =>
+    let r := rounds Ks (sa s) (sb s) (sc s) (sd s) (se s) (sf s) (sg s) (sh s)
+                    (word a0 a1 a2 a3) (word b0 b1 b2 b3) (word c0 c1 c2 c3) (word d0 d1 d2 d3)
+                    (word e0 e1 e2 e3) (word f0 f1 f2 f3) (word g0 g1 g2 g3) (word h0 h1 h2 h3)
+                    (word i0 i1 i2 i3) (word j0 j1 j2 j3) (word k0 k1 k2 k3) (word l0 l1 l2 l3)
+                    (word m0 m1 m2 m3) (word n0 n1 n2 n3) (word o0 o1 o2 o3) (word p0 p1 p2 p3) in
+    (mkst (add32 (sa s) (sa r)) (add32 (sb s) (sb r)) (add32 (sc s) (sc r)) (add32 (sd s) (sd r))
+          (add32 (se s) (se r)) (add32 (sf s) (sf r)) (add32 (sg s) (sg r)) (add32 (sh s) (sh r)), rest)
+  | _ => (s, [])
+  end.
 
 (* process all complete 64-byte blocks; fuel = number of blocks *)
 Fixpoint blocks (fuel : nat) (h : st) (l : bytes) : st :=
   match fuel with
   | O => h
-  | S f => blocks f (compress h (firstn 64%nat l)) (skipn 64%nat l)
+  | S f => let (h', l') := compress h l in blocks f h' l'
   end.
 
 Definition pad (l : bytes) : bytes :=
@@ -91,13 +345,14 @@ Definition pad (l : bytes) : bytes :=
   let z := (if Nat.leb r 56 then 56 - r else 120 - r)%nat in
   l ++ [x80] ++ repeat x00 z ++ be 8%nat (N.of_nat len * 8)%N.
 
-Definition int_bytes (x : int) : bytes := be 4%nat (Z.to_N (Uint63.to_Z x)).
+Definition int_bytes (x : int) (tail : bytes) : bytes :=
+  int_byte (x >> 24) :: int_byte (x >> 16) :: int_byte (x >> 8) :: int_byte x :: tail.
 
 Definition sha256 (l : bytes) : bytes :=
   let p := pad l in
   let s := blocks (Nat.div (length p) 64%nat) H0 p in
-  int_bytes (sa s) ++ int_bytes (sb s) ++ int_bytes (sc s) ++ int_bytes (sd s) ++
-  int_bytes (se s) ++ int_bytes (sf s) ++ int_bytes (sg s) ++ int_bytes (sh s).
+  int_bytes (sa s) (int_bytes (sb s) (int_bytes (sc s) (int_bytes (sd s)
+  (int_bytes (se s) (int_bytes (sf s) (int_bytes (sg s) (int_bytes (sh s) []))))))).
 
 Definition sha256_n (n : nat) (l : bytes) : bytes := firstn n (sha256 l).
 
@@ -114,4 +369,10 @@ Proof. vm_compute. reflexivity. Qed.
 Example sha256_two_blocks :
   hex (sha256 (unhex "6162636462636465636465666465666765666768666768696768696a68696a6b696a6b6c6a6b6c6d6b6c6d6e6c6d6e6f6d6e6f706e6f7071")) =
   "248d6a61d20638b8e5c026930c3e6039a33ce45964ff2167f6ecedd419db06c1"%string.
+Proof. vm_compute. reflexivity. Qed.
+
+(* one million 'a' would take too long here; a 1000-byte input exercises many blocks *)
+Example sha256_1000_a :
+  hex (sha256 (repeat x61 1000)) =
+  "41edece42d63e8d9bf515a9ba6932e1c20cbc9f5a5d134645adb5db1b9737ea3"%string.
 Proof. vm_compute. reflexivity. Qed.
